@@ -79,7 +79,7 @@ Proof. destruct a; unfold dle; cbn [dleb]; auto; discriminate. Qed.
 Definition good_gp (gp : list step) : Prop := gp = grpc_prog \/ gp = grpc_prog_deadline.
 
 Definition leaf_state (gp : list step) (wait : N) (l : leaf) : lstate :=
-  exec wait (litems l) (prog_of gp (lkind l)).
+  exec wait (litems l) (lstuck l) (prog_of gp (lkind l)).
 Definition fate_of (gp : list step) (wait : N) (l : leaf) (d : dur) : fate :=
   item_fate (leaf_state gp wait l) d.
 
@@ -343,7 +343,7 @@ Qed.
 Theorem grpc_unbounded_refuted :
   exists wait srvs, g_ret (shutdown wait srvs) = Inf /\ ~ dle (g_ret (shutdown wait srvs)) (Fin wait).
 Proof.
-  exists 300, [Single {| lkind := KGrpc; litems := [Fin 90; Inf] |}]. split.
+  exists 300, [Single (mkleaf KGrpc [Fin 90; Inf])]. split.
   - vm_compute. reflexivity.
   - vm_compute. discriminate.
 Qed.
@@ -380,16 +380,67 @@ Qed.
 (* the per-server waits are not added up: two TCP listeners still take one wait; doing them in
    turn would take two *)
 Theorem parallel_not_sequential :
-  g_ret (shutdown 300 [Single {| lkind := KTcp; litems := [] |}; Single {| lkind := KTcp; litems := [Inf] |}]) = Fin 300 /\
-  shutdown_sequential_ret 300 [Single {| lkind := KTcp; litems := [] |}; Single {| lkind := KTcp; litems := [Inf] |}] = Fin 600.
+  g_ret (shutdown 300 [Single (mkleaf KTcp []); Single (mkleaf KTcp [Inf])]) = Fin 300 /\
+  shutdown_sequential_ret 300 [Single (mkleaf KTcp []); Single (mkleaf KTcp [Inf])] = Fin 600.
 Proof. split; vm_compute; reflexivity. Qed.
+
+(* stuck handlers: tcp.Server.Shutdown does not wait for its handler goroutines, so (all the
+   theorems above quantify over [lstuck] too) they never delay the return; their clients see
+   the connection closed at the deadline at the latest *)
+Lemma leaf_ret_closed_form wait l :
+  r_ret (run_leaf grpc_prog wait l) =
+  match lkind l with
+  | KHttp => dmin (dmax_list (litems l)) (Fin wait)
+  | KTcp => Fin wait
+  | KGrpc => dmax_list (litems l)
+  end.
+Proof.
+  rewrite run_leaf_ret. destruct (lkind l) eqn:K.
+  - rewrite (state_http grpc_prog wait l K). reflexivity.
+  - rewrite (state_tcp grpc_prog wait l K). reflexivity.
+  - rewrite (state_grpc wait l K). reflexivity.
+Qed.
+
+Theorem stuck_handlers_do_not_delay wait l stuck' :
+  r_ret (run_leaf grpc_prog wait l) =
+  r_ret (run_leaf grpc_prog wait {| lkind := lkind l; litems := litems l; lstuck := stuck' |}).
+Proof. rewrite !leaf_ret_closed_form. reflexivity. Qed.
+
+Theorem stuck_client_closed_by_deadline wait l f :
+  lkind l = KTcp -> In f (r_stuck (run_leaf grpc_prog wait l)) ->
+  exists c, f = Cut c /\ dle c (Fin wait).
+Proof.
+  intros K H. cbn [run_leaf r_stuck] in H. apply in_map_iff in H. destruct H as [b' [<- _]].
+  fold (leaf_state grpc_prog wait l). rewrite (state_tcp grpc_prog wait l K).
+  unfold stuck_fate. cbn [cut_at]. eexists. split; [reflexivity|apply dmin_le_r].
+Qed.
+
+(* a Shutdown that also waited for the handler goroutines (NOT the code) would overrun the
+   wait by as long as a handler is stuck *)
+Definition tcp_waiting_ret (wait : N) (l : leaf) : dur :=
+  now (exec wait (litems l) (lstuck l) tcp_prog_waiting_for_handlers).
+
+Theorem tcp_waiting_ret_spec wait l :
+  tcp_waiting_ret wait l = dmax (Fin wait) (dmax_list (lstuck l)).
+Proof.
+  unfold tcp_waiting_ret, exec, tcp_prog_waiting_for_handlers, tcp_prog.
+  cbn [app fold_left exec_step lstate0 now closed_at cut_at]. rewrite dmax_zero_l. reflexivity.
+Qed.
+
+Theorem waiting_for_handlers_refuted :
+  exists wait l, lkind l = KTcp /\ r_ret (run_leaf grpc_prog wait l) = Fin wait /\
+                 ~ dle (tcp_waiting_ret wait l) (Fin wait).
+Proof.
+  exists 300, {| lkind := KTcp; litems := []; lstuck := [Fin 5000] |}.
+  split; [reflexivity|]. split; [vm_compute; reflexivity|]. vm_compute. discriminate.
+Qed.
 
 (* ---- non-vacuity ---- *)
 Definition example_mix : list server :=
-  [Single {| lkind := KHttp; litems := [Fin 90; Fin 600; Inf] |};
-   Single {| lkind := KTcp; litems := [Fin 150; Inf] |};
-   Single {| lkind := KGrpc; litems := [Fin 90; Fin 150] |};
-   Composite [{| lkind := KTcp; litems := [Fin 150; Inf] |}; {| lkind := KHttp; litems := [Fin 90; Fin 600] |}]].
+  [Single (mkleaf KHttp [Fin 90; Fin 600; Inf]);
+   Single (mkleaf KTcp [Fin 150; Inf]);
+   Single (mkleaf KGrpc [Fin 90; Fin 150]);
+   Composite [(mkleaf KTcp [Fin 150; Inf]); (mkleaf KHttp [Fin 90; Fin 600])]].
 
 Example bounded_on_domain_nonvacuous :
   over_wait 300 example_mix = false /\ g_ret (shutdown 300 example_mix) = Fin 300.
@@ -402,8 +453,8 @@ Example inflight_nonvacuous :
 Proof. vm_compute. reflexivity. Qed.
 
 Example overrun_nonvacuous :
-  over_wait 300 [Single {| lkind := KGrpc; litems := [Fin 900] |}] = true /\
-  g_ret (shutdown 300 [Single {| lkind := KGrpc; litems := [Fin 900] |}]) = Fin 900.
+  over_wait 300 [Single (mkleaf KGrpc [Fin 900])] = true /\
+  g_ret (shutdown 300 [Single (mkleaf KGrpc [Fin 900])]) = Fin 900.
 Proof. split; vm_compute; reflexivity. Qed.
 
 (* the check's region predicate is the theorems' [over_wait] *)
